@@ -1,0 +1,16 @@
+//go:build verif
+
+package deletionmanager
+
+import (
+	"github.com/anyproto/any-sync/commonspace/deletionstate"
+	"github.com/anyproto/any-sync/commonspace/object/treemanager"
+	"github.com/anyproto/any-sync/commonspace/spacestorage"
+)
+
+// VerifNewDeleter exports the private newDeleter so that one run of the
+// deletion worker is a schedulable step of the verification harness
+// (the public DeletionManager only runs it from a background loop).
+func VerifNewDeleter(st spacestorage.SpaceStorage, state deletionstate.ObjectDeletionState, treeManager treemanager.TreeManager) Deleter {
+	return newDeleter(st, state, treeManager, log)
+}
